@@ -659,8 +659,12 @@ impl FixtureDatabase {
                 continue;
             }
             if trimmed.starts_with('@') {
-                // Check for @pytest.fixture or @fixture (with optional parens/args)
-                if trimmed.contains("pytest.fixture") || trimmed.starts_with("@fixture") {
+                // Check for @pytest.fixture, @pytest_asyncio.fixture or @fixture
+                // (with optional parens/args)
+                if trimmed.contains("pytest.fixture")
+                    || trimmed.contains("pytest_asyncio.fixture")
+                    || trimmed.starts_with("@fixture")
+                {
                     return true;
                 }
                 // Another decorator — keep scanning upward
